@@ -220,6 +220,12 @@ EXTRA = {
  'C19': " LATE-UPDATE (mask complete before it is merged), SCALE (no absolute tolerance in the monotonicity test), NONFINITE and FWD over the profile and aperture modules are included.",
  'C20': " T-SLOT: every literal fix-flag array is in the order of fitter._CORRECTORS; the model's angular step and paired bilinear deposits are compared.",
 }
+_PACK = (" Generic pack (DESIGN 3.10) over the property's anchor modules: x/y mirror and pairing rules, no mutable default or class "
+         "attribute shared between calls/instances, per-element loops neither break out of a handler nor share an iteration counter, flag-family "
+         "guards, hand-rolled memos, property getters that write, cached_property, overwrite_input, option forwarding, plus the property's rows "
+         "of the spec table (sa/rules/spectable.py).")
+for _k in list(CLAIMS):
+    EXTRA[_k] = EXTRA.get(_k, '') + _PACK
 for _k, _v in EXTRA.items():
     CLAIMS[_k]['text'] += _v
     CLAIMS[_k]['note'] += " Thorough tier additionally replays the stored seeded changes of this property in memory (DESIGN 2.2)."
